@@ -41,8 +41,8 @@ import common  # noqa: E402
 from common import run_driver, bg  # noqa: E402
 
 ID = 'C16'
-LEAN_MODULES = ['Py65.Props.C16', 'Py65.Proofs.MonFillGenEq', 'Py65.Props.C16g']
-NAMESPACES = ['Py65.Props.C16', 'Py65.Proofs.MonFillGenEq', 'Py65.Props.C16g']
+LEAN_MODULES = ['Py65.Props.C16', 'Py65.Proofs.MonFillGenEq', 'Py65.Proofs.MonMemGenEq', 'Py65.Props.C16g']
+NAMESPACES = ['Py65.Props.C16', 'Py65.Proofs.MonFillGenEq', 'Py65.Proofs.MonMemGenEq', 'Py65.Props.C16g']
 LEVEL = 'proof'
 USES_PROLOGUE = True
 USES_GEN = False
@@ -56,6 +56,13 @@ EXPECTED_THEOREMS = [
     'Py65.Proofs.MonFillGenEq.doFill_eq',
     'Py65.Props.C16g.fill_exact', 'Py65.Props.C16g.fill_exact_aliasing', 'Py65.Props.C16g.fill_needs_range',
     'Py65.Props.C16g.load_exact', 'Py65.Props.C16g.wrote_line_text',
+    # tie by regeneration of the command front ends (unit memcmd): generated do_fill / do_load / do_save / do_mem =
+    # hand model MonMem.doFill / doLoad / doSave / doMem for all argument strings, and the remaining theorems restated
+    'Py65.Proofs.MonMemGenEq.do_fill_eq', 'Py65.Proofs.MonMemGenEq.fillerExc_kind', 'Py65.Proofs.MonMemGenEq.do_load_pre_eq',
+    'Py65.Proofs.MonMemGenEq.do_load_eq', 'Py65.Proofs.MonMemGenEq.do_save_eq', 'Py65.Proofs.MonMemGenEq.do_mem_eq',
+    'Py65.Proofs.MonMemGenEq.pairs_eq', 'Py65.Proofs.MonMemGenEq.save_for2_eq', 'Py65.Proofs.MonMemGenEq.mem_for1_eq',
+    'Py65.Props.C16g.fill_rejects', 'Py65.Props.C16g.load_rejects', 'Py65.Props.C16g.save_exact',
+    'Py65.Props.C16g.save_load_roundtrip', 'Py65.Props.C16g.mem_exact', 'Py65.Props.C16g.mem_reads_cells',
 ]
 RULE = ('one evaluation = one monitor command executed through the real Monitor.onecmd inside a script. '
         'non-trivial = the command wrote at least one cell, wrote a file, printed at least one cell, or was '
@@ -71,10 +78,31 @@ TRUSTED = [
     'guaranteed by the address parser; fill_diverges shows the loop does not terminate otherwise), and '
     'Py65.Props.C16g restates fill_exact / fill_exact_aliasing / load_exact for the generated method.  A source '
     'change that breaks the equality, or that the translator refuses, is a broken tie',
+    'REGENERATED on every run: the command front ends Monitor.do_fill / do_load / do_save / do_mem and their help_* '
+    '(arity tests, try/except KeyError/OverflowError/else with the filler loop and `value > self.byteMask`; the file '
+    'read with its OSError / urlopen handlers, `top` placement with `//`, the PC default, the 8-bit list and the '
+    '16-bit big-endian pairing bytes[0::2]/bytes[1::2]; the two number() calls of save, the cell-by-cell comprehension '
+    'over range(start, end + 1), the octet loop range(byteWidth - 8, -1, -8) with (m >> shift) & 0xff, the Saved line; '
+    'the range() loop of mem with `len(line) + len(more) > self._width`) are translated by harness/py2lean_monmem.py '
+    'into lean/Py65/Gen/MonMemGen.lean, where do_fill / do_load call the GENERATED _fill; '
+    'Py65.Proofs.MonMemGenEq.do_fill_eq / do_load_eq / do_save_eq / do_mem_eq prove them equal to the hand model '
+    'MonMem.doFill / doLoad / doSave / doMem on shlex.split(args) for ALL argument strings, memories, parsers and worlds '
+    '(hypotheses: parser well-formed with maxaddr = addrMask and fuel above the address space for fill; BYTE_WIDTH >= 8 '
+    'and fuel above the file length for load; none for save; _width >= 0 for mem); Py65.Props.C16g restates '
+    'fill_rejects / load_rejects / save_exact / save_load_roundtrip / mem_exact / mem_reads_cells for the generated methods',
     'hand model lean/Py65/Model/MonMem.lean (monitor.py do_fill/do_load/do_save/do_mem transcribed line '
     'by line on tokenised arguments; _fill also hand-modelled, see above) over Py65.Model.ObsMem and '
     'Py65.Model.AddrParser -- tied to the real Monitor by this sampled correspondence (parsed output of every '
-    'command, complete backing list, putc stream, breakpoint list, width, pc)',
+    'command, complete backing list, putc stream, breakpoint list, width, pc) AND by the regeneration above',
+    'harness/py2lean_monmem.py (extends py2lean_mon.py: dynamic try/except, raise, comprehensions, range loops, // << >>, '
+    'nested def, join functions; isinstance(x, str) is decided statically for Python 3 -- the dead Python-2 branches '
+    'are not translated) and the library / OS helpers of lean/Py65/Model/MonMemRt.lean, modelled not verified: the '
+    'exceptions with their arguments (PExc), the World (open(name, rb).read() = octets or OSError(errno, strerror); '
+    'open(name, wb) succeeds or OSError; urlopen(url).read(); exc.args[0] of the parser\'s KeyError / OverflowError), '
+    'file objects (pyOpenR/pyOpenW/pyUrlopen/pyFileWrite, a written file appears at close), bytearray (pyByteArray), '
+    '// (pyFloorDiv / Int.fdiv), >> << (pyShr/pyShl), `sub in s` (pyStrIn), l[i::c] (pySliceFromStep), list(map(f,a,b)) '
+    '(pyMap2), str(exc) (PExc.str), range (ObsMem.pyRange), shlex.split (MonCmd.shlexSplit), the ObservableMemory item '
+    'read (Model.ObsMem.get), the address parser (parseNumberX / parseRangeX over AddrParser.numberL / rangeL)',
     'harness/py2lean_mon.py (Python subset -> Lean; CPython evaluation order for the accepted subset is modelled, '
     'not verified) and the library helpers the generated text calls, lean/Py65/Model/MonGenRt.lean: list indexing '
     '(pyGetItem), %d / %0Nx conversions (pyFmtD, pyFmtX), ObservableMemory item store (Model.ObsMem.set); '
@@ -99,8 +127,9 @@ ASSUMPTIONS = [
     'label+/-offset (label values on the byte and address boundaries); the real monitor gets those spellings, the '
     'model (radix 16, no labels) the same numbers as $hex -- number parsing itself is C15',
     'memory cells hold values in [0, 2^BYTE_WIDTH) (true of every cell the monitor or a device writes)',
-    'tie by regeneration covers Monitor._fill only; do_fill / do_load / do_save / do_mem (shlex, files, the address '
-    'parser, the output wrapping) remain hand-modelled and tied by correspondence.  The generated while loop is '
+    'tie by regeneration covers Monitor._fill, do_fill, do_load, do_save, do_mem and their help_* methods; onecmd / '
+    'cmd.Cmd dispatch, do_width and the other commands remain hand-modelled and tied by correspondence; the file system '
+    'is a parameter (World): save_load_roundtrip assumes that load reads the octets save wrote.  The generated while loop is '
     'fuel-bounded: fill_eq holds for every fuel above the length of the range and needs `end <= addrMask` for a '
     'proper range (do_fill guarantees it: the parser raises OverflowError first); a one-address range needs nothing',
 ]
@@ -116,9 +145,12 @@ _TEMPLATES = {}
 
 
 def pre_build(ctx):
-    """translator tie: regenerate lean/Py65/Gen/MonFillGen.lean from the current monitor.py"""
-    from props import montie
-    return montie.pre_build(ctx, 'fill')
+    """translator tie: regenerate lean/Py65/Gen/MonFillGen.lean (unit fill: _fill) and MonMemGen.lean (unit memcmd:
+    do_fill / do_load / do_save / do_mem) from the current monitor.py; the units are independent"""
+    from props import montie, monmemtie
+    a = montie.pre_build(ctx, 'fill')
+    b = monmemtie.pre_build(ctx)
+    return a and b
 
 
 def template(dev, seed):
